@@ -32,7 +32,7 @@ for p in props:
     pid = p["id"]
     c = checks.get(pid)
     if not c or c.get("disabled") or pid not in enabled:
-        m["not_applicable"].append({"property_id": pid, "reason": (c or {}).get("na_reason", "check not built yet in this round (model and driver pending); see DESIGN.md section 10")})
+        m["not_applicable"].append({"property_id": pid, "reason": (c or {}).get("na_reason", "temporarily unclaimed: the check is being brought up to date with fix commits made to /repo in this round (model and proofs follow the repaired code); see DESIGN.md 11.5")})
         continue
     m["checks"].append({
         "property_id": pid,
